@@ -20,7 +20,10 @@ def make_shape(rng):
     if fam == 'convex': b = G.convex_polygon(rng, n=rng.randint(3, 12))
     elif fam == 'star': b = G.star_polygon(rng, n=rng.randint(4, 30), R=rng.choice([10.0, 100.0]))
     elif fam == 'bigstar': b = G.star_polygon(rng, n=rng.randint(81, 120), R=1000.0, bits=12)
-    elif fam == 'comb': b = G.comb_polygon(rng, teeth=rng.choice([2, 3, 5, 9, 20, 29]))
+    elif fam == 'comb':
+        b = G.comb_polygon(rng, teeth=rng.choice([2, 3, 5, 9, 20, 25, 29]))
+        if rng.random() < 0.5:
+            b = [(y, x) for x, y in b][::-1]        # the same comb standing upright (taller than wide), still counter-clockwise
     elif fam == 'spiral': b = G.spiral_polygon(rng)
     elif fam == 'lobes': b = G.lobed_polygon(rng)
     elif fam == 'dart':
@@ -38,7 +41,7 @@ def make_shape(rng):
     return fam, b, hs
 
 
-def check_tiling(ctx, kind, verts, faces, b, hs, desc):
+def check_tiling(ctx, kind, verts, faces, b, hs, desc, fam='grid'):
     """verts: list of (x,y) floats; faces: index triples; b, hs: input loops (floats)"""
     fb = [X.fpt(p) for p in b]; fh = [[X.fpt(p) for p in h] for h in hs]
     fv = [X.fpt(p) for p in verts]
@@ -70,7 +73,10 @@ def check_tiling(ctx, kind, verts, faces, b, hs, desc):
         # is the fault ONLY that some triangle edges pass through input vertices lying exactly on them?
         tj = t_junction_only(directed, in_edges, inputs)
         if tj:
-            ctx.violation(kind + ':t_junction', 'the triangles tile the shape exactly, but the triangle edge %s - %s passes through the input vertex %s '
+            # one kind for every shape family and both ear tests (the known finding), except for the family built so that the unchanged
+            # library gives a conforming triangulation: a T-junction there is a regression of the bridge choice
+            ctx.violation(kind.replace(':hashed', '') + (':t_junction:' + fam if fam == 'collinear_candidates' else ':t_junction'),
+                          'the triangles tile the shape exactly, but the triangle edge %s - %s passes through the input vertex %s '
                           '(collinear with it): it is not shared edge-to-edge' % tuple(tuple(float(c) for c in x) for x in tj), desc)
         else:
             ctx.violation(kind_, msg, desc)
@@ -242,6 +248,66 @@ def fam_split_hashed(ctx, rng):
     run_entry(ctx, 'split_hashed', rng.choice(['earcut', 'mesh2d', 'face3d']), b, hs)
 
 
+def fam_collinear_candidates(ctx, rng):
+    """a hole whose leftmost vertex is exactly in line with two re-entrant notch tips of the boundary on its left (both subtend the same
+    angle when the hole is bridged): the nearer tip must be chosen.  Exact similarities (dyadic scale, translation, mirror in y) and
+    every start vertex / winding of hole and boundary"""
+    sy = rng.choice([1, -1]); k_ = rng.choice([1.0, 0.5, 2.0, 4.0]); tx, ty = G.rpt2(rng, 50)
+    slope = rng.choice([(2, 1), (3, 1), (1, 1), (4, 1)])          # run, rise of the line through the tips and the hole vertex
+    run, rise = slope
+    hx, hy = 10.0, 0.0
+    t1 = (hx - 2 * run, hy - 2 * rise); t2 = (hx - 4 * run, hy - 4 * rise)         # nearer and farther tip on one line
+    if t2[0] <= 0.5 or t2[1] <= -9.5:
+        t1 = (hx - run, hy - rise); t2 = (hx - 2 * run, hy - 2 * rise)
+    b = [(0.0, -10.0), (t2[0] - 1.0, -10.0), t2, (t2[0] + 1.0, -10.0), (t1[0] - 1.0, -10.0), t1, (t1[0] + 1.0, -10.0), (20.0, -10.0),
+         (20.0, 10.0), (0.0, 10.0)]
+    hole = [(hx, hy), (hx + 3.0, hy - 1.0), (hx + 3.0, hy + 1.0)]
+    T = lambda p: (p[0] * k_ + tx, sy * p[1] * k_ + ty)
+    b = [T(p) for p in b]; hole = [T(p) for p in hole]
+    if sy < 0:
+        b = b[::-1]; hole = hole[::-1]
+    st = rng.randrange(len(b)); b = b[st:] + b[:st]
+    st = rng.randrange(3); hole = hole[st:] + hole[:st]
+    if rng.random() < 0.5: b = b[::-1]
+    if rng.random() < 0.5: hole = hole[::-1]
+    fb = [X.fpt(p) for p in b]
+    if not G.certify_polygon(b) or not all(X.winding_inside(fb, X.fpt(p)) is True for p in hole):
+        return
+    run_entry(ctx, 'collinear_candidates', rng.choice(['earcut', 'mesh2d', 'face3d']), b, [hole])
+
+
+def fam_tall_hashed(ctx, rng):
+    """combs with more than 80 vertices (z-order hashed ear test) standing upright - several times taller than wide - or lying flat;
+    mirrored and re-started"""
+    if rng.random() < 0.5:
+        b = G.comb_polygon(rng, teeth=rng.randint(21, 30))
+    else:
+        # teeth of alternating heights standing on a base strip, the gaps between them reaching down to alternating depths
+        # (re-entrant gap corners then lie inside candidate ears spanned by neighbouring tooth corners)
+        teeth = rng.randint(21, 30); w = rng.choice([0.5, 1.0, 2.0])
+        heights = [G.dy(rng.uniform(1, 4), 3) for _ in range(rng.choice([2, 3]))]; roots = [G.dy(rng.uniform(0.5, 2.5), 3) for _ in range(rng.choice([2, 3]))]
+        b = [(0.0, 0.0)]; x = 0.0
+        for t in range(teeth):
+            top = 3.0 + heights[t % len(heights)]; root = roots[t % len(roots)]
+            b += [(x, top), (x + w, top), (x + w, root)]
+            x += 2 * w
+            if t < teeth - 1:
+                b.append((x, root))
+        b.append((x - w, 0.0))
+        b = b[::-1]
+    upright = rng.random() < 0.75
+    if upright:
+        b = [(y, x) for x, y in b][::-1]
+    if rng.random() < 0.5:
+        b = [(-x, y) for x, y in b][::-1]
+    k = rng.randrange(len(b)); b = b[k:] + b[:k]
+    if rng.random() < 0.5:
+        b = b[::-1]
+    if not G.certify_polygon(b):
+        return
+    run_entry(ctx, 'tall_comb' if upright else 'flat_comb', rng.choice(['earcut', 'mesh2d', 'face3d']), b, [])
+
+
 def fam_earcut(ctx, rng):
     fam, b, hs = make_shape(rng)
     entry = rng.choice(['earcut', 'mesh2d', 'face3d'])
@@ -264,10 +330,10 @@ def run_entry(ctx, fam, entry, b, hs):
             tri = T.earcut(data, hidx or None, 2)
             allv = b + [p for h in hs for p in h]
             faces = [tuple(tri[i:i + 3]) for i in range(0, len(tri), 3)]
-            check_tiling(ctx, kind, allv, faces, b, hs, desc)
+            check_tiling(ctx, kind, allv, faces, b, hs, desc, fam)
         elif entry == 'mesh2d':
             m = Mesh2D.from_polygon_triangulated(Polygon2D([P2(p) for p in b]), [Polygon2D([P2(p) for p in h]) for h in hs] or None)
-            check_tiling(ctx, kind, [(v.x, v.y) for v in m.vertices], [tuple(f) for f in m.faces], b, hs, desc)
+            check_tiling(ctx, kind, [(v.x, v.y) for v in m.vertices], [tuple(f) for f in m.faces], b, hs, desc, fam)
         else:
             face = Face3D([P3((p[0], p[1], 0.0)) for p in b], holes=[[P3((p[0], p[1], 0.0)) for p in h] for h in hs] or None)
             m = face.triangulated_mesh3d
@@ -278,9 +344,9 @@ def run_entry(ctx, fam, entry, b, hs):
                 pl = face.plane
                 b2 = [tuple(pl.xyz_to_xy(P3((p[0], p[1], 0.0)))) for p in b]
                 h2 = [[tuple(pl.xyz_to_xy(P3((p[0], p[1], 0.0)))) for p in h] for h in hs]
-                check_tiling(ctx, kind, [(v.x, v.y) for v in m2.vertices], [tuple(f) for f in m2.faces], b2, h2, desc)
+                check_tiling(ctx, kind, [(v.x, v.y) for v in m2.vertices], [tuple(f) for f in m2.faces], b2, h2, desc, fam)
             else:
-                check_tiling(ctx, kind, vs, [tuple(f) for f in m.faces], b, hs, desc)
+                check_tiling(ctx, kind, vs, [tuple(f) for f in m.faces], b, hs, desc, fam)
     except Exception as e:
         ctx.violation(kind + ':raises', '%r' % (e,), desc)
 
@@ -312,7 +378,7 @@ def fam_predicates(ctx, rng):
             ctx.violation('tri.pred:point_in_triangle', '_point_in_triangle=%r expected %r' % (inside, exp), dict(desc, p=p))
 
 
-FAMILIES = [(fam_grid_holes, 40), (fam_staggered_holes, 40), (fam_split_hashed, 16), (fam_earcut, 220), (fam_predicates, 200)]
+FAMILIES = [(fam_grid_holes, 40), (fam_staggered_holes, 40), (fam_split_hashed, 16), (fam_collinear_candidates, 16), (fam_tall_hashed, 12), (fam_earcut, 220), (fam_predicates, 200)]
 
 
 def explore(ctx):
